@@ -73,6 +73,7 @@ func Main(args []string) int {
 		fs.StringVar(&a.Scratch, "scratch", "", "")
 		fs.IntVar(&a.Timeout, "timeout", 60, "")
 		fs.IntVar(&a.KeepSamples, "keep", 2, "")
+		fs.IntVar(&a.MaxRSSMB, "maxrss", 4096, "")
 		_ = fs.Parse(args[2:])
 		return RunWorker(a)
 	}
